@@ -5,7 +5,7 @@ from props._solver import standard_run
 
 
 def run(ctx):
-    corr, viol = standard_run(ctx, "C10", {"enum", "opt", "stats", "term", "crash"}, 500, 8000, [], cons=1)
+    corr, viol = standard_run(ctx, "C10", {"enum", "opt", "stats", "term", "crash"}, 500, 30000, [], cons=1)
     # shaving vs plain bound consistency on the same problem and heuristics: same multiset, same optimum
     import corr_engine as ce
     rng = random.Random(ctx["seed"] + 991)
